@@ -186,7 +186,57 @@ func alterCH(body []byte, field string) []byte {
 
 		return append(o, eb...)
 	}
+	dropExt := func(t uint16) []byte {
+		return rebuildExts(func(e []Ext) []Ext {
+			var keep []Ext
+			for _, x := range e {
+				if x.Type != t {
+					keep = append(keep, x)
+				}
+			}
+
+			return keep
+		})
+	}
 	switch field {
+	// ---- well-formed hellos that leave the receiver without a common value (C08) ----
+	case "legacy-10":
+		out[0], out[1] = 0xfe, 0xff
+	case "no-sv":
+		return dropExt(ExtSupportedVers)
+	case "legacy-10+no-sv":
+		o := dropExt(ExtSupportedVers)
+		o[0], o[1] = 0xfe, 0xff
+
+		return o
+	case "sv-unknown":
+		return rebuildExts(func(e []Ext) []Ext {
+			for i, x := range e {
+				if x.Type == ExtSupportedVers {
+					e[i].Body = []byte{2, 0x7f, 0x7f}
+				}
+			}
+
+			return e
+		})
+	case "legacy-10+sv-unknown":
+		o := alterCH(body, "sv-unknown")
+		o[0], o[1] = 0xfe, 0xff
+
+		return o
+	case "suites-unknown":
+		n := int(be(body[p.suitesOff : p.suitesOff+2]))
+		for i := 0; i+1 < n; i += 2 {
+			out[p.suitesOff+2+i], out[p.suitesOff+3+i] = 0x5a, 0x5a
+		}
+	case "no-groups":
+		return dropExt(ExtSupportedGroups)
+	case "no-keyshare":
+		return dropExt(ExtKeyShare)
+	case "no-sigalgs":
+		return dropExt(13)
+	case "no-exts":
+		return rebuildExts(func([]Ext) []Ext { return nil })
 	case "random":
 		out[2+7] ^= 0x40
 	case "version":
